@@ -5,7 +5,8 @@ Open Scope Z_scope.
 
 (* what the harness logs, in the order of one mutex-protected log *)
 Inductive oev :=
-| ODial                              (* DialContext entered *)
+| ODial                              (* DialContext entered, its context not finished *)
+| ODialDead                          (* DialContext entered with a context that is already finished *)
 | OOpen (k : nat)                    (* DialContext returns transport k *)
 | OPkt (k : nat) (b : list N)        (* first packet written on k, and every later CONNECT-type packet *)
 | OClose (k : nat)                   (* first Close call on transport k *)
@@ -27,6 +28,7 @@ Fixpoint decode_from (c : connect) (i : nat) (t : list oev) : list ev :=
   match t with
   | [] => []
   | ODial :: r => EvDial i :: decode_from c (S i) r
+  | ODialDead :: r => EvDial i :: decode_from c (S i) r
   | OOpen k :: r => EvOpen k :: decode_from c i r
   | OPkt k b :: r =>
     (match pack_connect c with
@@ -122,6 +124,15 @@ Definition c09_stop_ok (c : c09_case) : bool :=
   disc_stop_ok t && existsb (is_stop SDisconnect) t && negb (existsb is_panic t) &&
   (if cancel_effective (k_sc c) then no_dial_after SCancel t else true).
 
+(* no dial is started under a finished context (the model's dial_ctx_done is all false:
+   C09_dials_with_live_context) *)
+Definition is_dead (e : oev) : bool := match e with ODialDead => true | _ => false end.
+Definition c09_dialctx_ok (c : c09_case) : bool := negb (existsb is_dead (k_obs c)).
+
+(* stress family: (number of accept-then-drop cycles completed, the client stopped redialling by
+   itself). The model redials after every unexpected end (C09_redials_until_connected). *)
+Definition c09_stress_ok (c : nat * bool) : bool := negb (snd c).
+
 (* upper bounds (serial family only): delay <= prescribed wait + 250 ms *)
 Fixpoint le_all (slack : Z) (el sp : list Z) : bool :=
   match el, sp with
@@ -136,5 +147,7 @@ Definition c09_backoff_violations (cs : list c09_case) := indices_where (fun c =
 Definition c09_one_transport_violations (cs : list c09_case) := indices_where (fun c => negb (c09_one_transport_ok c)) cs.
 Definition c09_connect_violations (cs : list c09_case) := indices_where (fun c => negb (c09_connect_ok c)) cs.
 Definition c09_stop_violations (cs : list c09_case) := indices_where (fun c => negb (c09_stop_ok c)) cs.
+Definition c09_dialctx_violations (cs : list c09_case) := indices_where (fun c => negb (c09_dialctx_ok c)) cs.
+Definition c09_stress_violations (cs : list (nat * bool)) := indices_where (fun c => negb (c09_stress_ok c)) cs.
 Definition c09_trace_mismatches (cs : list c09_case) := indices_where (fun c => negb (c09_trace_ok c)) cs.
 Definition c09_waitub_mismatches (cs : list c09_case) := indices_where (fun c => negb (c09_waitub_ok c)) cs.
